@@ -203,6 +203,39 @@ def run(ck, facts, tier):
                         ck.ok(R, inst, "conditions over the whole substitution")
 
     # ------------------------------------------------------------------ GOAL
+    R = "C20.EVERY-LOCAL-IMPL-CHECKED"
+    ck.rule(R, "K3/K9: whichever function drives the orphan check (calls perform_orphan_check inside a loop over impl ids) reaches that "
+               "loop on every path to a successful return - no early `return Ok(())` in front of it that depends on a flag of the trait "
+               "(marker, auto ..) or of the impl; error propagation with `?` is the only other way out.  And the loop has no "
+               "element-dropping adaptor and is never left early (K9)")
+    from core import CallGraph as _CG
+    cg_o = _CG(facts, ["chalk_solve", "chalk_integration", "chalk"])
+    drivers = sorted({k for k, _b, _t in cg_o.callers_of(lambda k_: k_ == "chalk_solve::coherence::orphan::perform_orphan_check", through_helpers=False)})
+    ck.floor(R, "callers-of-perform_orphan_check", len(drivers), 1)
+    for dk in drivers:
+        db_ = cg_o.bodies[dk]
+        cfg = db_.cfg
+        perf = cfg.call_blocks("perform_orphan_check")
+        heads = [nb for nb in cfg.call_blocks("Iterator::next") if any(p_ in cfg.reachable(nb, (), False) for p_ in perf)]
+        inst = "%s:loop-reached-on-every-ok-path" % short(dk.split("::{")[0])
+        if not heads:
+            ck.violation(R, inst, db_.where(), "perform_orphan_check is not called from a loop over the impls")
+            continue
+        excused = set(cfg.call_blocks("FromResidual::from_residual"))
+        reach = cfg.reachable(0, (), False, stop=set(heads) | excused)
+        esc = [r for r in cfg.return_blocks() if r in reach]
+        if esc:
+            ck.violation(R, inst, db_.where(cfg.blocks[esc[0]]["t"].get("ln")), "the function can return successfully without entering the loop that "
+                         "orphan-checks the impls (an early return on some flag): those impls are never checked")
+        else:
+            ck.ok(R, inst, "every non-error return is behind the loop over the impls")
+        from kit import adaptor_sites as _ads
+        drops = _ads(facts, db_.crate, lambda k_, dk_=dk: k_ == dk_.split("::{")[0])
+        if drops:
+            ck.violation(R, "%s:all-impls" % short(dk.split("::{")[0]), db_.where(), "impl ids are narrowed before the orphan check: %s" % sorted(a for _k, a in drops))
+        else:
+            ck.ok(R, "%s:all-impls" % short(dk.split("::{")[0]))
+
     R = "C20.GOAL"
     ck.rule(R, "K3: perform_orphan_check builds LocalImplAllowed(impl trait_ref) under the impl's own binders, closes it, and returns "
                "FailedOrphanCheck exactly on the `solve(..).is_some() == false` edge")
